@@ -110,6 +110,9 @@ func parent(r *vf.Run) {
 		}
 	}
 
+	for i := 0; i < len(jobs) && i < 24; i += 7 {
+		r.Sample(jobs[i])
+	}
 	var mu sync.Mutex
 	pairs := map[string]*pairInfo{}
 	harnessOnly, hookReports := 0, 0
